@@ -84,6 +84,9 @@ pub struct HybridCfg {
     /// hashes the admission filter rejects
     #[serde(default)]
     pub reject: Vec<u64>,
+    /// size of a blob index in pages (default 1)
+    #[serde(default)]
+    pub blob_index_pages: Option<usize>,
     /// write-queue threshold in bytes (default: the engine's 16 MiB)
     #[serde(default)]
     pub queue_threshold: Option<usize>,
@@ -361,6 +364,10 @@ impl HybridRunner {
             .with_flush_switch(self.switch.clone())
             .with_compression(compression)
             .with_admission_filter(StorageFilter::new().with_condition(EnqRecorder(self.enq.clone(), h.reject.clone())));
+        let engine = match h.blob_index_pages {
+            Some(n) => engine.with_blob_index_size(n * PAGE),
+            None => engine,
+        };
         let engine = match h.queue_threshold {
             Some(n) => engine.with_submit_queue_size_threshold(n),
             None => engine,
